@@ -79,3 +79,38 @@ def rule_updates_carry_front_matter(facts, rep, rid):
                     rep.violation(rid, k2, "an Update built outside the action providers is not rendered by Graph::to_markdown / export_key / with_front_matter: the whole-file edit drops the "
                                   "note's front matter", loc(f, x))
     rep.floor(rid, "Update literals outside the action providers", n, 2)
+
+
+def rule_rename_carries_front_matter(facts, rep, rid):
+    """The note a rename moves is rebuilt in a patch graph under the NEW name, but the patch knows the library's front matter under the OLD names only
+    (Graph::new_patch copies `metadata` as it is): the text written to the new file has to get the front matter recorded for the old key
+    (`Graph::with_front_matter(&key, ..)`), otherwise renaming a note deletes its `---` block (found on the pinned tree through a sub-agent's remark, repaired)."""
+    h = facts.fn("Server::handle_rename")
+    rep.saw_fn(h)
+    c = ctx(h)
+    key = h.def_ + "|renamed-note-keeps-front-matter"
+    ops = [x for x in fb.walk(h.body) if x.get("k") in ("mcall", "call") and (fb.callee(x) or "").endswith("to_override_new_file_op")]
+    if not ops:
+        rep.anchor_missing(rid, "to_override_new_file_op in Server::handle_rename (the content of the new file)")
+        return
+    probs = []
+    for op in ops:
+        args = op.get("args", [])
+        content = args[-1] if args else None
+        m = c.vprov(content) | c.mentions(content)
+        if not q.has_call(m, "Graph::with_front_matter"):
+            probs.append("the text of the new file does not pass Graph::with_front_matter: the patch graph has the note's front matter under the old name only, so the renamed note loses it")
+            continue
+        wf = [x for x in fb.walk(h.body) if x.get("k") in ("mcall", "call") and (fb.callee(x) or "").endswith("Graph::with_front_matter")]
+        for w in wf:
+            a = w.get("args", [])
+            mk = (c.vprov(a[0]) | c.mentions(a[0])) if a else set()
+            if ("field", "new_name") in mk:
+                probs.append("with_front_matter is asked for the NEW key (derived from params.new_name), under which nothing is recorded")
+            rcv = c.vprov(w.get("recv")) | c.mentions(w.get("recv")) if w.get("recv") is not None else set()
+            if q.has_call(rcv, "Graph::new_patch"):
+                pass    # the patch carries the same metadata map (new_patch copies it): either graph answers for the old key
+    if probs:
+        rep.violation(rid, key, "; ".join(sorted(set(probs))), loc(h, ops[0]))
+    else:
+        rep.ok(rid, key, "new file <- graph.with_front_matter(<old key>, patch.export_key(new_key))", loc(h, ops[0]))
